@@ -298,3 +298,50 @@ func T12() {
 	vrt.Assert("limit", c.n <= c.limit)
 	vrt.Reach("end")
 }
+
+// T13/T14: recover() (engine option model_recover=1). A decoder-like function whose deferred closure calls recover()
+// itself turns a nil dereference into an error (T13: no violation, and the error is seen exactly when the input is nil);
+// one whose deferred closure calls a helper that calls recover() does not recover (Go's rule): the panic is reported (T14).
+type t13Box struct{ v *int }
+
+func t13Direct(b t13Box) (_ int, oerr error) {
+	defer func() {
+		if r := recover(); r != nil {
+			oerr = context.Canceled
+		}
+	}()
+	return *b.v, nil
+}
+
+func t14Helper(oerr *error) {
+	if r := recover(); r != nil {
+		*oerr = context.Canceled
+	}
+}
+
+func t14Indirect(b t13Box) (_ int, oerr error) {
+	defer func() { t14Helper(&oerr) }()
+	return *b.v, nil
+}
+
+func T13() {
+	x := 7
+	b := t13Box{v: &x}
+	isNil := vrt.Bool("nil")
+	if isNil {
+		b.v = nil
+	}
+	_, err := t13Direct(b)
+	vrt.Assert("recovered exactly when nil", (err != nil) == isNil)
+	vrt.Reach("end")
+}
+
+func T14() {
+	x := 7
+	b := t13Box{v: &x}
+	if vrt.Bool("nil") {
+		b.v = nil
+	}
+	_, _ = t14Indirect(b)
+	vrt.Reach("end")
+}
